@@ -155,6 +155,89 @@ pub fn probes(x: &AnyBv, o: &Out, stash: &[AnyBv]) -> Vec<Value> {
     probes_native(x, o, stash).iter().map(|p| p.to_json()).collect()
 }
 
+/// Native reference for the three-way cross-check (DESIGN.md 4.3): when subject and operand fit
+/// in 128 bits the expected result is also computed with plain u128 arithmetic / core::fmt /
+/// from_str_radix and logged as `ref`.  Trace.tla first checks that the SPECIFICATION agrees with
+/// this reference; a disagreement is a specification bug (tool error), never a violation.
+pub fn native_ref(case: &Case) -> Option<Value> {
+    let n = case.x.len();
+    if n > 128 {
+        return None;
+    }
+    let mask = |w: usize| -> u128 { if w >= 128 { u128::MAX } else { (1u128 << w) - 1 } };
+    let a = bits_int(&case.x);
+    let yb: Option<Bits> = match &case.y {
+        YSpec::Bits(b) => Some(b.clone()),
+        YSpec::Int(t, v) => Some(int_bits(*v, t.width())),
+        _ => None,
+    };
+    let vec = |v: u128| Out::Vec(int_bits(v & mask(n), n)).to_json();
+    if is_binop(case.op) {
+        let yb = yb?;
+        // bits of the operand at or beyond 128 cannot be represented: only usable if they are zero
+        if yb.iter().skip(128).any(|b| *b != 0) {
+            return None;
+        }
+        let b = bits_int(&yb);
+        return Some(match case.op {
+            "add" => vec(a.wrapping_add(b)),
+            "sub" => vec(a.wrapping_sub(b & mask(n)).wrapping_add(if n < 128 { 1u128 << n } else { 0 })),
+            "mul" => vec(a.wrapping_mul(b)),
+            "and" => vec(a & b),
+            "or" => vec(a | b),
+            "xor" => vec(a ^ b),
+            "div" => {
+                if b == 0 { return None; }
+                vec(a / b)
+            }
+            "rem" => {
+                if b == 0 { return None; }
+                vec(a % b)
+            }
+            _ => return None,
+        });
+    }
+    match case.op {
+        "shl" | "shr" => {
+            let k = case.a.n?;
+            Some(if k >= n as u128 { vec(0) } else if case.op == "shl" { vec(a << k) } else { vec(a >> k) })
+        }
+        "not" => Some(vec(!a)),
+        "eq" | "ne" | "lt" | "le" | "gt" | "ge" | "pcmp" | "cmp" => {
+            let yb = yb?;
+            if yb.len() > 128 {
+                return None;
+            }
+            let b = bits_int(&yb);
+            let c = a.cmp(&b) as i8;
+            Some(match case.op {
+                "eq" => Out::Bool(c == 0),
+                "ne" => Out::Bool(c != 0),
+                "lt" => Out::Bool(c < 0),
+                "le" => Out::Bool(c <= 0),
+                "gt" => Out::Bool(c > 0),
+                "ge" => Out::Bool(c >= 0),
+                _ => Out::Ord(c),
+            }.to_json())
+        }
+        "fmt" => {
+            let s = crate::fmtgen::fmt_apply(&a, case.a.fmt.as_ref()?)?;
+            Some(Out::Str(s.chars().map(|c| c.to_string()).collect()).to_json())
+        }
+        "from_binary" | "from_hex" => {
+            let cs = case.a.chars.as_ref()?;
+            let s: String = cs.concat();
+            let (radix, per) = if case.op == "from_binary" { (2, 1) } else { (16, 4) };
+            if cs.len() * per > 128 || cs.is_empty() || !s.is_ascii() || s.starts_with('+') || s.starts_with('-') {
+                return None;
+            }
+            let v = u128::from_str_radix(&s, radix).ok()?;
+            Some(Out::Vec(int_bits(v, cs.len() * per)).to_json())
+        }
+        _ => None,
+    }
+}
+
 pub fn is_form_op(op: &str) -> bool {
     is_binop(op) || op == "shl" || op == "shr"
 }
@@ -301,13 +384,21 @@ impl Matrix {
             }
         }
         self.events += groups.len() as u64;
+        let nref = if case.cf == "fun" { native_ref(case) } else { None };
         groups
             .into_iter()
             .map(|(_, r, n)| {
-                json!({
+                let mut ev = json!({
                     "op": case.op, "f": r.f, "r": "s", "nb": 1, "cf": case.cf, "dbg": self.dbg as u8,
                     "x": r.x, "y": r.y, "a": r.a, "px": r.px, "py": r.py, "o": r.o, "pr": r.pr, "cov": n,
-                })
+                });
+                // (only for outcomes that do not depend on a fixed capacity)
+                if let Some(rf) = &nref {
+                    if !(case.capsens && ev["x"]["cl"] == "F" && ev["o"]["t"] == "err") {
+                        ev["ref"] = rf.clone();
+                    }
+                }
+                ev
             })
             .collect()
     }
